@@ -6,12 +6,26 @@ from __future__ import absolute_import, division
 import json
 import re
 from datetime import date, datetime
+from decimal import Decimal
 
 # This is a hack to determine the type of object that re.compile returns, since the type
 #    "re.RegexObject" mentioned in the official Python documentation doesn't actually exist.
 # Could alternatively use "re._pattern_type" (undocumented and marked private)
 #    or the following in 3.6: "from typing import Pattern"
 REGEX_TYPE = type(re.compile(""))
+
+
+def formatNumber(value):
+    """
+    Format a number for use in a Gcode command.
+
+    Gcode does not support exponent notation (firmware would read "1e-05" as 1), so values
+    that str() would render with an exponent are expanded to plain decimal notation.
+    """
+    text = str(value)
+    if ("e" in text) or ("E" in text):
+        text = format(Decimal(text), "f")
+    return text
 
 
 class JsonEncoder(json.JSONEncoder):
